@@ -176,6 +176,12 @@ def _enumerate_base(tier: str):
         yield {"kind": "content", "origin": "deep", "data": "[" * depth}
         yield {"kind": "content", "origin": "deep", "data": '{"1":' * depth}
         yield {"kind": "content", "origin": "deep", "data": '{"1":{"node_id":1,"node_type":1,"protocol_version":"2","children":' + '{"1":' * depth}
+    # one gateway object under 1-3 event loops in turn, overlapping loads in each
+    for content in LOOP_CONTENTS:
+        for loops in (1, 2, 3):
+            yield {"kind": "loops", "content": content, "how": "gather", "loops": loops}
+            yield {"kind": "loops", "content": content, "how": "gather", "loops": loops, "width": 4}
+            yield {"kind": "loops", "content": content, "how": "started", "loops": loops}
     for what in SPECIALS:
         yield {"kind": "special", "what": what}
         yield {"kind": "special", "what": what, "debug_log": True}
@@ -287,9 +293,60 @@ def opt_cases(tier: str):
             yield case
 
 
+VALID_FILE = '{"7": {"node_id": 7, "node_type": 17, "protocol_version": "2.0", "sketch_name": "s", "sketch_version": "1", "battery_level": 0, "heartbeat": 0, "sleeping": false, "children": {}}}'
+LOOP_CONTENTS = {"valid": VALID_FILE, "empty": "", "truncated": VALID_FILE[:40], "wrong-shape": "[1, 2]", "bad-type": VALID_FILE.replace("17", '"x"')}
+
+
+def _run_loops(case: dict, scratch: str, path: str) -> Outcome:
+    """One gateway object (and its Persistence) is used under several event loops in turn (asyncio.run called again after a restart of the
+    application's main coroutine); in each, loads of the same file overlap (two tasks load at once; or the background saver is started and a
+    load follows at once). Whatever waits for whatever: a load succeeds or raises the persistence read error."""
+    with open(path, "w", encoding="utf-8") as fil:
+        fil.write(LOOP_CONTENTS[case["content"]])
+    gateway = Gateway(env.RecordingTransport(), Config(persistence_file=path))
+    classes = (f"origin=loops:{case['content']}:{case['how']}", f"loops={case['loops']}")
+    seen_error = False
+    for number in range(case["loops"]):
+
+        async def one_round() -> list:
+            persistence = gateway.persistence
+            if case["how"] == "gather":
+                return list(await asyncio.gather(*(persistence.load() for _ in range(case.get("width", 2))), return_exceptions=True))
+            results = []
+            try:
+                await persistence.start()  # (the saver's first save is under way or about to start)
+            except Exception as err:  # noqa: BLE001
+                results.append(err)
+            results += list(await asyncio.gather(persistence.load(), persistence.load(), return_exceptions=True))
+            try:
+                await persistence.stop()
+            except Exception as err:  # noqa: BLE001
+                results.append(err)
+            return results
+
+        for err in env.run(one_round()):
+            if isinstance(err, PersistenceReadError):
+                seen_error = True
+            elif isinstance(err, BaseException):
+                out = fail(f"load-leak:loops:{env.exc_sig(err)}", f"event loop #{number + 1}, file {case['content']}, {case['how']}: {type(err).__name__}: {str(err)[:200]}")
+                out.classes = classes
+                return out
+        if case["content"] == "valid" and case["how"] == "gather" and (seen_error or sorted(env.snapshot(gateway.nodes)) != ["7"]):
+            out = fail("special:loops:valid-file-not-loaded", f"event loop #{number + 1}: concurrent loads of a valid file: error={seen_error}, registry {sorted(env.snapshot(gateway.nodes))}")
+            out.classes = classes
+            return out
+    return Outcome(ok=True, nontrivial=True, classes=classes)
+
+
 def run_case(case: dict) -> Outcome:
     scratch = tempfile.mkdtemp(prefix="vf-c14-", dir=c13.SCRATCH_BASE)
     path = os.path.join(scratch, case.get("file_name") or "persistence.json")
+    if case.get("kind") == "loops":
+        try:
+            with env.debug_logging(bool(case.get("debug_log"))):
+                return _run_loops(case, scratch, path)
+        finally:
+            shutil.rmtree(scratch, ignore_errors=True)
     info = {"json_ok": False, "raised": False}
     origin = case.get("origin", case.get("what", "?"))
 
